@@ -16,7 +16,7 @@ MODULE = "ConfigState"
 # family -> (MaxObj, MaxDepth) ; sizes measured, see design_notes/C07.md
 BOUNDS = {
     "quick": {"L": (2, 3), "C": (3, 4), "F": (3, 4), "K": (4, 6), "T": (3, 4), "M": (4, 4)},
-    "thorough": {"L": (2, 4), "C": (4, 5), "F": (4, 5), "K": (6, 8), "T": (4, 6), "M": (5, 5)},
+    "thorough": {"L": (2, 4), "C": (3, 5), "F": (4, 5), "K": (6, 7), "T": (4, 5), "M": (5, 5)},
 }
 PAIR_BOUNDS = {
     "quick": {"L": (2, 3), "C": (3, 3), "F": (3, 3), "K": (4, 4), "T": (3, 4), "M": (4, 3)},
